@@ -2,6 +2,7 @@ package main
 
 import (
 	"fmt"
+	"math/big"
 	"go/types"
 	"regexp"
 	"sort"
@@ -22,6 +23,7 @@ type Contract struct {
 	Returns string `json:"returns,omitempty"` // "arg<k>" | "new" | "" (automatic)
 	Reads   []int  `json:"reads,omitempty"`   // default: all arguments
 	Copy    bool   `json:"copy,omitempty"`    // the written pointee becomes exactly the value of the (single) read argument
+	Havoc   bool   `json:"havoc,omitempty"`   // the written pointee becomes an arbitrary value of its type (fresh symbols); results likewise
 }
 
 var sanitizeRe = regexp.MustCompile(`[^A-Za-z0-9_]`)
@@ -173,7 +175,21 @@ func (m *Machine) externalCall(fn *ssa.Function, args []Value) Value {
 			}
 			continue
 		}
+		if c.Havoc {
+			m.store(p, m.havocLike(m.load(p), et))
+			continue
+		}
 		m.store(p, m.expandU(et, mk(fmt.Sprintf("_w%d", k))))
+	}
+	if c.Havoc {
+		for _, k := range c.Writes {
+			if sl, isSlice := args[k].(SliceV); isSlice {
+				for i := 0; i < sl.len; i++ {
+					ep := elemPtr(sl, i)
+					m.store(ep, m.havocLike(m.load(ep), nil))
+				}
+			}
+		}
 	}
 	res := sig.Results()
 	mkRet := func(t types.Type, idx int) Value {
@@ -193,6 +209,9 @@ func (m *Machine) externalCall(fn *ssa.Function, args []Value) Value {
 			return Ptr{obj: m.newObj(m.expandU(pt.Elem(), mk(fmt.Sprintf("_r%d", idx))), "ext:"+fn.Name())}
 		}
 		if b, ok := t.Underlying().(*types.Basic); ok {
+			if c.Havoc {
+				return m.havocLike(m.zero(t), t)
+			}
 			if b.Info()&types.IsBoolean != 0 {
 				return VBool{&Cond{kind: "ubool", uterm: mk(fmt.Sprintf("_b%d", idx))}}
 			}
@@ -226,6 +245,59 @@ func (m *Machine) externalCall(fn *ssa.Function, args []Value) Value {
 		t.vs = append(t.vs, mkRet(res.At(i).Type(), i))
 	}
 	return t
+}
+
+// havocLike returns an arbitrary value shaped like old (fresh symbols for every integer / boolean leaf).
+func (m *Machine) havocLike(old Value, t types.Type) Value {
+	switch x := old.(type) {
+	case VInt:
+		w, signed := 64, true
+		if x.bv != nil {
+			w = x.bv.w
+			signed = false
+		} else if t != nil {
+			if ww, sg, ok := intInfo(t); ok {
+				w, signed = ww, sg
+			}
+		}
+		return m.nondet("hv", w, signed, nil, nil)
+	case VBool:
+		b := m.nondet("hvb", 8, false, big.NewInt(0), big.NewInt(1)).(VInt)
+		if k, ok := concreteBig(b); ok {
+			return VBool{m.cbool(k.Sign() != 0)}
+		}
+		if m.intMode {
+			return VBool{cCmp("=", b.lin, linConstI(1))}
+		}
+		return VBool{&Cond{bv: bvCmp("=", b.bv, bvConstI(1, 8))}}
+	case ArrayV:
+		out := ArrayV{elems: make([]Value, len(x.elems))}
+		var et types.Type
+		if t != nil {
+			if at, ok := t.Underlying().(*types.Array); ok {
+				et = at.Elem()
+			}
+		}
+		for i, e := range x.elems {
+			out.elems[i] = m.havocLike(e, et)
+		}
+		return out
+	case StructV:
+		out := StructV{fields: make([]Value, len(x.fields))}
+		var st *types.Struct
+		if t != nil {
+			st, _ = t.Underlying().(*types.Struct)
+		}
+		for i, f := range x.fields {
+			var ft types.Type
+			if st != nil && i < st.NumFields() {
+				ft = st.Field(i).Type()
+			}
+			out.fields[i] = m.havocLike(f, ft)
+		}
+		return out
+	}
+	return old
 }
 
 // sameValue builds the condition "a and b hold the same value" (deep, through pointers).
